@@ -160,7 +160,12 @@ protected:
     chunk.extracted = 1;
     chunk.c_chunk = 0;
     chunk.c_valid = 0;
+
+    // The scan must not go beyond the end of the bucket (the header of the
+    // last bucket can be shorter than maxcomplength)
     chunk.b_remain = maxcomplength;
+    if (chunk.b_remain > (ptr + blStrings->getField(bucket + 1) - chunk.b_ptr))
+      chunk.b_remain = ptr + blStrings->getField(bucket + 1) - chunk.b_ptr;
 
     // Variables used for adjusting purposes
     uint plen = 0;
